@@ -144,4 +144,16 @@ def load():
         "trusts TLC, the driver (harness/cmd/vh/lifecycle.go), the spelling of stages (checks/lifecycle.py); Drain called after Start returned; 2-3 session schedules sampled by seed; hub wired to the store only in a dedicated group",
         "TLA+ contract + implementation-shaped model (predicted counterexample) + TLC-generated schedules replayed through the spawn gate on real listeners + TLC trace validation",
         "DESIGN.md 5/C19", "lifecycle")
+    from checks import retention
+    reg("C12", retention.c12, "model_checking",
+        "TLC checks the Retention contract model (spec/Retention.tla, GenRetention.tla: RemovesExactlyExpired, ZeroNeverDeletes, StopsPromptly and step properties; the scan as per-mailbox "
+        "steps in every order interleaved with environment deliveries/removals/purges, Cancel and the run loop) exhaustively, then enumerates every age distribution {older, younger} over "
+        "the mailboxes with the undisturbed scan, one environment operation at every position of the scan (store wrapper between two mailboxes; file store: gates between the directory "
+        "levels of the walk) and cancellation before the scan / after any mailbox / during the visitor's sleep, plus Start/Join with period 0 and with cancellation during the start delay "
+        "(thorough: during and after the loop's own scan); each runs on the real RetentionScanner over the real memory and file stores and TLC validates every whole-store observation, "
+        "and the promptness booleans, against the contract (RetentionTrace.tla).",
+        "trusts TLC, the driver and projection (harness/cmd/vh/retention.go: tr.Snapshot, dates mapped to whole hours of age, stopwatch booleans), the concretiser (checks/retention.py); "
+        "ages whole hours away from the cutoff; environment operations interleaved deterministically inside the scanning goroutine (parallel access is C09)",
+        "TLA+ contract + TLC-enumerated age distributions x schedules replayed on the real scanner and stores + TLC trace validation",
+        "DESIGN.md 5/C12", "retention")
     return REG
